@@ -68,7 +68,7 @@ func (w *W) c03Expect(lit []byte) (v ref.Value, ok bool) {
 
 // c03CheckDoc parses doc holding the literals lits (as array elements or
 // object values) and compares every exposed number.
-func (w *W) c03CheckDoc(doc []byte, lits [][]byte, exp []ref.Value, cfg Config, fresh bool, where string) {
+func (w *W) c03CheckDoc(doc []byte, lits [][]byte, exp []ref.Value, cfg Config, fresh bool, where string, layout int) {
 	cs := &ev.Case{Gen: "c03-" + where, Input: doc}
 	w.Journal(cs)
 	if w.Skip() {
@@ -87,8 +87,8 @@ func (w *W) c03CheckDoc(doc []byte, lits [][]byte, exp []ref.Value, cfg Config, 
 		}
 		// split to find the rejected literal(s)
 		h := len(lits) / 2
-		w.c03CheckDoc(c03Doc(lits[:h], where), lits[:h], exp[:h], cfg, fresh, where)
-		w.c03CheckDoc(c03Doc(lits[h:], where), lits[h:], exp[h:], cfg, fresh, where)
+		w.c03CheckDoc(c03Doc(lits[:h], where, layout), lits[:h], exp[:h], cfg, fresh, where, layout)
+		w.c03CheckDoc(c03Doc(lits[h:], where, layout), lits[h:], exp[h:], cfg, fresh, where, layout)
 		return
 	}
 	perr := walk.Guard(func() error {
@@ -113,45 +113,55 @@ func (w *W) c03CheckDoc(doc []byte, lits [][]byte, exp []ref.Value, cfg Config, 
 			w.Eval(1)
 			typ := it.Type()
 			bad := func(what, detail string) {
-				w.Violation("C03/"+what+"/"+q(lit), fmt.Sprintf("literal %s (%s, %s): %s", q(lit), where, cfg, detail), &ev.Case{Gen: "c03-" + where, Input: c03Doc([][]byte{lit}, where)})
+				// the witness is the literal alone with the white space that followed it here
+				wl := 0
+				if layout != 0 {
+					wl = ((k-1)*7 + layout) % len(c03Gaps)
+				}
+				wdoc := c03Doc([][]byte{lit}, where, wl)
+				if wl != 0 {
+					detail += fmt.Sprintf(" [followed by %d bytes of white space]", c03Gaps[wl%len(c03Gaps)])
+				}
+				w.Violation("C03/"+what+"/"+q(lit), fmt.Sprintf("literal %s (%s, %s): %s", q(lit), where, cfg, detail), &ev.Case{Gen: "c03-" + where, Input: wdoc})
 			}
-			switch e.K {
-			case ref.Int:
-				if typ != simdjson.TypeInt {
-					bad("type", fmt.Sprintf("exposed as %v, want int", typ))
-					continue
-				}
-				if v, err := it.Int(); err != nil || v != e.I {
-					bad("value", fmt.Sprintf("Int()=%d,%v want %d", v, err, e.I))
-				}
-			case ref.Uint:
-				if typ != simdjson.TypeUint {
-					bad("type", fmt.Sprintf("exposed as %v, want uint", typ))
-					continue
-				}
-				if v, err := it.Uint(); err != nil || v != e.U {
-					bad("value", fmt.Sprintf("Uint()=%d,%v want %d", v, err, e.U))
-				}
-			case ref.Float:
-				if typ != simdjson.TypeFloat {
-					bad("type", fmt.Sprintf("exposed as %v, want float", typ))
-					continue
-				}
-				v, fl, err := it.FloatFlags()
-				if err != nil || math.Float64bits(v) != math.Float64bits(e.F) {
-					bad("value", fmt.Sprintf("FloatFlags()=%v (%#x),%v want %v (%#x)", v, math.Float64bits(v), err, e.F, math.Float64bits(e.F)))
-					continue
-				}
-				if fl.Contains(simdjson.FloatOverflowedInteger) != e.Flag {
-					bad("flag", fmt.Sprintf("overflowed-integer flag %v, want %v", fl.Contains(simdjson.FloatOverflowedInteger), e.Flag))
-				}
-				if uint64(fl)&^uint64(simdjson.FloatOverflowedInteger) != 0 {
-					bad("flag", fmt.Sprintf("unknown flag bits %#x", uint64(fl)))
-				}
-			}
+			c03JudgeNumber(&it, typ, e, bad)
+
 		}
 		if k != len(lits) {
 			return fmt.Errorf("%d numbers on the tape, want %d", k, len(lits))
+		}
+		if where == "object" {
+			// the same numbers through Object.NextElementBytes into one long-lived destination iterator
+			// (what it held before: the previous member, the previous document)
+			it := pj.Iter()
+			it.AdvanceInto()
+			if it.AdvanceInto() != simdjson.TagObjectStart {
+				return fmt.Errorf("root is not an object")
+			}
+			o, err := it.Object(nil)
+			if err != nil {
+				return err
+			}
+			for k := 0; ; k++ {
+				_, t, err := o.NextElementBytes(&c03Elem)
+				if err != nil {
+					return err
+				}
+				if t == simdjson.TypeNone {
+					if k != len(lits) {
+						return fmt.Errorf("%d members through NextElementBytes, want %d", k, len(lits))
+					}
+					break
+				}
+				if k >= len(lits) {
+					return fmt.Errorf("more members than literals")
+				}
+				lit := lits[k]
+				w.Eval(1)
+				c03JudgeNumber(&c03Elem, t, exp[k], func(what, detail string) {
+					w.Violation("C03/"+what+"/NextElementBytes/"+q(lit), fmt.Sprintf("literal %s (object member read through NextElementBytes into a recycled iterator, %s): %s", q(lit), cfg, detail), &ev.Case{Gen: "c03-" + where, Input: c03Doc([][]byte{lit}, where, 0)})
+				})
+			}
 		}
 		return nil
 	})
@@ -160,15 +170,75 @@ func (w *W) c03CheckDoc(doc []byte, lits [][]byte, exp []ref.Value, cfg Config, 
 	}
 }
 
-func c03Doc(lits [][]byte, where string) []byte {
+// c03JudgeNumber compares what an iterator resting on a number exposes with the reference.
+func c03JudgeNumber(it *simdjson.Iter, typ simdjson.Type, e ref.Value, bad func(what, detail string)) {
+	switch e.K {
+	case ref.Int:
+		if typ != simdjson.TypeInt {
+			bad("type", fmt.Sprintf("exposed as %v, want int", typ))
+			return
+		}
+		if v, err := it.Int(); err != nil || v != e.I {
+			bad("value", fmt.Sprintf("Int()=%d,%v want %d", v, err, e.I))
+		}
+	case ref.Uint:
+		if typ != simdjson.TypeUint {
+			bad("type", fmt.Sprintf("exposed as %v, want uint", typ))
+			return
+		}
+		if v, err := it.Uint(); err != nil || v != e.U {
+			bad("value", fmt.Sprintf("Uint()=%d,%v want %d", v, err, e.U))
+		}
+	case ref.Float:
+		if typ != simdjson.TypeFloat {
+			bad("type", fmt.Sprintf("exposed as %v, want float", typ))
+			return
+		}
+		v, fl, err := it.FloatFlags()
+		if err != nil || math.Float64bits(v) != math.Float64bits(e.F) {
+			bad("value", fmt.Sprintf("FloatFlags()=%v (%#x),%v want %v (%#x)", v, math.Float64bits(v), err, e.F, math.Float64bits(e.F)))
+			return
+		}
+		if fl.Contains(simdjson.FloatOverflowedInteger) != e.Flag {
+			bad("flag", fmt.Sprintf("overflowed-integer flag %v, want %v", fl.Contains(simdjson.FloatOverflowedInteger), e.Flag))
+		}
+		if uint64(fl)&^uint64(simdjson.FloatOverflowedInteger) != 0 {
+			bad("flag", fmt.Sprintf("unknown flag bits %#x", uint64(fl)))
+		}
+	}
+}
+
+var c03Elem simdjson.Iter
+
+// c03Gaps: how many white-space bytes follow a literal before the next structural character
+// (layout > 0): none, a few, around the longest integer (20 bytes) and a SIMD block and more.
+var c03Gaps = []int{0, 1, 2, 7, 18, 19, 20, 21, 22, 40, 64, 130}
+
+func c03Doc(lits [][]byte, where string, layout int) []byte {
 	var b bytes.Buffer
+	gap := func(i int) {
+		if layout == 0 {
+			return
+		}
+		n := c03Gaps[(i*7+layout)%len(c03Gaps)]
+		for j := 0; j < n; j++ {
+			b.WriteByte(" \n\t\r"[(j+i+layout)%4])
+		}
+	}
+	lead := func(i int) {
+		if layout%3 == 2 {
+			b.WriteString("  \n"[:(i+layout)%4])
+		}
+	}
 	if where == "array" {
 		b.WriteByte('[')
 		for i, l := range lits {
 			if i > 0 {
 				b.WriteByte(',')
 			}
+			lead(i)
 			b.Write(l)
+			gap(i)
 		}
 		b.WriteByte(']')
 	} else {
@@ -178,7 +248,9 @@ func c03Doc(lits [][]byte, where string) []byte {
 				b.WriteByte(',')
 			}
 			b.WriteString(`"k":`)
+			lead(i)
 			b.Write(l)
+			gap(i)
 		}
 		b.WriteByte('}')
 	}
@@ -209,7 +281,12 @@ func (w *W) c03Flush(st *c03State) {
 	st.n++
 	for ci, cfg := range w.configs() {
 		for _, where := range []string{"array", "object"} {
-			w.c03CheckDoc(c03Doc(lits, where), lits, exp, cfg, (st.n+ci)%64 == 0, where)
+			// every other document with white space of many lengths behind (and before) the literals
+			layout := 0
+			if (st.n+ci+len(where))%2 == 0 {
+				layout = 1 + st.n%11
+			}
+			w.c03CheckDoc(c03Doc(lits, where, layout), lits, exp, cfg, (st.n+ci)%64 == 0, where, layout)
 		}
 	}
 	if w.WantSample() {
@@ -381,12 +458,13 @@ func replayC03(w *W, cs *ev.Case) {
 		where = "object"
 		lit = in[len(`{"k":`) : len(in)-1]
 	}
+	lit = bytes.Trim(lit, " \n\t\r")
 	v, ok := w.c03Expect(lit)
 	fmt.Printf("literal %s: reference %v %+v usable=%v\n", q(lit), v.K, v, ok)
 	if !ok {
 		return
 	}
 	for _, cfg := range w.configs() {
-		w.c03CheckDoc(in, [][]byte{lit}, []ref.Value{v}, cfg, true, where)
+		w.c03CheckDoc(in, [][]byte{lit}, []ref.Value{v}, cfg, true, where, 0)
 	}
 }
